@@ -14,6 +14,7 @@ from fam_field import FIELD
 from fam_tower import TOWER
 from fam_curve import CURVE
 from fam_pairing import PAIR
+from fam_wkdibe import WK
 
 RULE = ("obligations = every (declared operation, aliasing pattern) the headers of the tree under test permit (Alias.tla over the catalogue "
         "extracted by tools/extract_ops.py: output = this / first writable operand; an input may be the output iff const, same object type and "
@@ -22,7 +23,7 @@ RULE = ("obligations = every (declared operation, aliasing pattern) the headers 
         "output aliased, on assembly and portable builds; both runs are validated by the layer's trace specification and MC_Alias judges "
         "aliased-rejected-while-twin-accepted. distinct = (event key, pattern code, configuration, operand class)")
 
-FAMS = {"field": FIELD, "tower": TOWER, "curve": CURVE, "pair": PAIR}
+FAMS = {"field": FIELD, "tower": TOWER, "curve": CURVE, "pair": PAIR, "wk": WK}
 
 def akey(ev):
     op = ev.get("op", "")
@@ -34,12 +35,14 @@ def akey(ev):
     if op == "gt.exp": return "gt.exp:%s" % ev.get("variant")
     if op == "gt.op": return "gt.op:%s" % ev.get("which")
     if op == "gt.random": return "gt.random:%s" % ev.get("variant")
+    if op == "wk.history": return ev.get("akey", "wk")
     return op
 
 def fam_of(key):
     if key.startswith(("raw.", "fp.")): return "field"
     if key.startswith("ext."): return "tower"
     if key.startswith(("pt.", "mul.")): return "curve"
+    if key.startswith("wk:"): return "wk"
     return "pair"
 
 def op_class(c):
@@ -81,7 +84,7 @@ def plan_phase(run, sc):
 def generate_all(run, tier):
     """run the layer generators concurrently; returns {family: [cases]}"""
     jobs = {"field": ("Gen_Field", {}), "tower": ("Gen_Tower", {}), "curve_p": ("Gen_Curve", {"WHAT": "points"}),
-            "curve_s": ("Gen_Curve", {"WHAT": "scalars"}), "pair": ("Gen_Pairing", {"WHAT": "gt"})}
+            "curve_s": ("Gen_Curve", {"WHAT": "scalars"}), "pair": ("Gen_Pairing", {"WHAT": "gt"}), "wk": ("Gen_WkdIbe", {"FAMILY": "inplace", "KEEP": 1})}
     res, errs = {}, []
     def work(name, mod, env):
         try:
@@ -96,7 +99,7 @@ def generate_all(run, tier):
     ths = [threading.Thread(target=work, args=(n, m, e)) for n, (m, e) in jobs.items()]
     [t.start() for t in ths]; [t.join() for t in ths]
     if errs: raise errs[0]
-    return {"field": res["field"], "tower": res["tower"], "curve": res["curve_p"] + res["curve_s"], "pair": res["pair"]}
+    return {"field": res["field"], "tower": res["tower"], "curve": res["curve_p"] + res["curve_s"], "pair": res["pair"], "wk": res["wk"]}
 
 def build_cases(required, cases_by_fam, per_key):
     """for each required (key, codes): base cases (alias-free twins) and their aliased variants, tagged with a pair id"""
@@ -110,6 +113,19 @@ def build_cases(required, cases_by_fam, per_key):
     for key in sorted(required):
         codes = sorted(required[key])
         cands = bykey.get(key, [])
+        if key.startswith("wk:"):
+            # histories generated in pairs by Gen_WkdIbe (family "inplace"): same steps, output key distinct / = input key
+            pairs = {}
+            for c in cands: pairs.setdefault(c["aid"], []).append(c)
+            ids = sorted(pairs)
+            if not ids: holes += [(key, c) for c in codes]; continue
+            import random
+            random.Random(vlib.seed()).shuffle(ids)
+            for i in ids[:per_key[2]]:
+                for c in sorted(pairs[i], key=lambda x: x["alias"]):
+                    d = dict(c); d["aid"] = 1000000 + i; d["src"] = "alias" if d["alias"] else "alias-twin"
+                    out["wk"].append(d)
+            continue
         # bases that cannot alias (affine base for a projective result) are no use here
         cands = [c for c in cands if not (c.get("op", "").startswith("mul.") and c.get("affine", 0) == 1)]
         if any("b" in c for c in cands): cands = [c for c in cands if "b" in c]     # binary operations: drop the generator's unary shorthands
@@ -163,7 +179,7 @@ def run(tier):
             out = os.path.join(sc, "al.%s.%s.trace.ndjson" % (fam, cfg))
             run.drive(FAMS[fam], cfg, ["replay", cf + "." + cfg, out]); traces.append(out)
         fails = run.validate(FAMS[fam], traces, timeout=3000)
-        if fam == "pair": fails = [(e, [l for l in ls if not l.startswith("diag.")]) for e, ls in fails]
+        fails = [(e, [l for l in ls if not l.startswith("diag.")]) for e, ls in fails]
         bad = {}
         for e, ls in fails:
             if any(l.startswith("pre.") for l in ls): raise Infra("precondition label %s on alias case %s" % (ls, e.get("akey")))
